@@ -1,5 +1,5 @@
 """C09 — administrative and status endpoints require their own scopes"""
-from tiecommon import TIE_DENY, TIE_TTLCODE, TIE_NOTE, TIE_ASSUMPTION
+from tiecommon import TIE_DENY, TIE_TTLCODE, TIE_ACCESS, TIE_NOTE, TIE_ASSUMPTION
 from relaycommon import RelayMode
 
 RULE = ("relay mode (see C01) — the failures reported here: deny/allow/list answered 2xx for a token that is not valid-with-relay:admin, "
@@ -13,7 +13,7 @@ P = "Relay.Props.C09"
 THEOREMS = [(f"Access.{n}", P) for n in ["deny_ok_iff", "allow_ok_iff", "list_ok_iff", "list_exact", "stats_ok_iff",
                                          "valid_without_scope_is_401", "refused_changes_nothing", "readonly_endpoints",
                                          "lookalike_scopes_refused", "isRelayAdmin_iff", "hasStatsScope_iff"]]
-THEOREMS = THEOREMS + TIE_DENY
+THEOREMS = THEOREMS + TIE_DENY + TIE_ACCESS
 RULE = TIE_NOTE + RULE
 ASSUMPTIONS = ASSUMPTIONS + [TIE_ASSUMPTION]
 
